@@ -143,7 +143,8 @@ def runW (ws : List W) (implRes : List String) : Acc := Id.run do
   return a
 
 def showEntry (e : Entry) : String :=
-  hexS e.sess ++ ":" ++ toString e.ty ++ ":" ++ hexS e.key ++ ":" ++ toString e.ch
+  -- the key is not observable from outside (the harness finds retained channels by reflection): session, type, channel
+  hexS e.sess ++ ":" ++ toString e.ty ++ ":" ++ toString e.ch
 
 def showSt (st : St) : String := joinOr ((st.map showEntry).mergeSort (· ≤ ·)) ";"
 
@@ -169,7 +170,7 @@ def implDeliveries (ws : List W) (implRes : List String) : Option (List (List Na
 def implRetained (s : String) : Option (List Live) := do
   let es ← (items s ";").mapM fun e =>
     match e.splitOn ":" with
-    | [a, t, _, c] => do
+    | [a, t, c] => do
       let sess ← fromHex a
       pure (⟨← c.toNat?, sess, ← t.toNat?⟩ : Live)
     | _ => none
